@@ -453,6 +453,50 @@ pub fn run(tier: Tier) -> i32 {
         });
         st = st.merge(sd);
     }
+    // trees from the parser (and a few hand-built ones) wrapped by Expression::new with a label that is not their
+    // source text: empty, shorter than the node offsets, multi-byte characters at every alignment; every search
+    // that fails must fail with an error value (the error constructor sees an offset foreign to the text)
+    {
+        use jmespath::ast::Ast;
+        let srcs = [
+            "abs(@)", "abs('x')", "nosuch(@)", "length()", "a.b.abs(c)", "not_null(a, abs(b))", "[::0]", "a[0:1:0]", "a[*].length(@)", "sort_by(@, &abs(@))", "max_by(a, &to_array(@))",
+            "map(&nosuch(@), @)", "a || length(`1`)", "\n\n  abs('x')", "'\u{e9}\u{e9}\u{e9}' && abs('x')", "a[?abs(@) > `1`]", "{k: abs('x')}", "[abs('x'), 1]", "`1` < abs('x')", "!abs('x')",
+        ];
+        let labels = ["", "x", "q1", "\u{e9}", "a\u{e9}", "\u{20ac}\u{20ac}\u{20ac}\u{20ac}\u{20ac}\u{20ac}\u{20ac}\u{20ac}", "a\u{20ac}\u{20ac}\u{20ac}\u{20ac}\u{20ac}\u{20ac}\u{20ac}", "ab\u{20ac}\u{20ac}\u{20ac}\u{20ac}\u{20ac}\u{20ac}", "\u{1F600}\u{1F600}\u{1F600}\u{1F600}\u{1F600}\u{1F600}", "a\u{1F600}\u{1F600}\u{1F600}\u{1F600}\u{1F600}", "ab\u{1F600}\u{1F600}\u{1F600}\u{1F600}", "abc\u{1F600}\u{1F600}\u{1F600}\u{1F600}", "gr\u{f6}\u{df}e", "\u{65e5}\u{672c}", "n\u{20ac} lookup by name", "line one\n\u{e9}\u{e9}\u{e9}\u{e9}\u{e9}\u{e9}\u{e9}\u{e9}\u{e9}\u{e9}\u{e9}\u{e9}"];
+        let docs = [json!(null), json!("x"), json!([1, "a"]), json!({"a": [1, 2], "b": "s"})];
+        let mut trees: Vec<(String, Ast)> = srcs.iter().filter_map(|s| jmespath::parse(s).ok().map(|a| (s.to_string(), a))).collect();
+        for off in [0usize, 1, 2, 3, 5, 7, 64, 100_000] {
+            trees.push((format!("hand-built abs() at offset {}", off), Ast::Function { offset: off, name: "abs".into(), args: vec![] }));
+            trees.push((format!("hand-built nosuch(@) at offset {}", off), Ast::Function { offset: off, name: "nosuch".into(), args: vec![Ast::Identity { offset: off }] }));
+            trees.push((format!("hand-built [::0] at offset {}", off), Ast::Slice { offset: off, start: None, stop: None, step: 0 }));
+        }
+        for (what, ast) in &trees {
+            for label in labels {
+                for d in &docs {
+                    st.states += 1;
+                    st.evaluations += 1;
+                    st.validated += 1;
+                    let rc = value_to_var(d);
+                    let r = guarded(|| {
+                        let e = jmespath::Expression::new(label, ast.clone(), &jmespath::DEFAULT_RUNTIME);
+                        match e.search(rc.clone()) {
+                            Ok(_) => true,
+                            Err(err) => {
+                                // the error value must be usable
+                                let _ = err.to_string();
+                                let _ = format!("{:?}", err);
+                                false
+                            }
+                        }
+                    });
+                    match r {
+                        Ok(_) => st.outcome("hand-built expression returned"),
+                        Err(m) => st.violate(Violation { key: panic_key(&m), check: "foreign-label".into(), case: json!({"kind": "foreign-label", "tree": what, "label": label, "document": d}), expected: "Ok or Err, and the error renders".into(), actual: format!("panic: {}", m) }),
+                    }
+                }
+            }
+        }
+    }
     // (c) nesting families, one subprocess each
     let depths: Vec<usize> = tier.pick(vec![8, 64, 512, 4096, 32768], vec![8, 64, 512, 4096, 32768, 262144]);
     let known = crate::engine::load_known_raw();
@@ -502,7 +546,7 @@ pub fn run(tier: Tier) -> i32 {
         }
     }
     rep.guard("strings that compile are searched", st.nontrivial > 1000);
-    rep.rule = "(a) every character string up to the bound over the extended alphabet, (b) every token sequence up to the bound over T22 + extreme numbers (full alphabet for two tokens, a bracket/number-centred alphabet below) and every slice/index built from pairs of extreme numbers -- each compiled, cloned, searched against 8 documents and dropped under catch_unwind, a hang watchdog and a fatal-signal handler, with integer overflow checks on; (c) 20 nesting families x the depth ladder, one fresh process each on a thread with an 8 MiB stack (compile, clone, search, Debug-format, drop). non-trivial = the input compiled and was searched / the family member completed Mixed-representation sorts: every array of 21..22 (thorough ..33) numbers over four neighbouring values above 2^53 (integer and float spellings) deviating from the constant array in <= 3 positions, through sort and sort_by.".into();
+    rep.rule = "(a) every character string up to the bound over the extended alphabet, (b) every token sequence up to the bound over T22 + extreme numbers (full alphabet for two tokens, a bracket/number-centred alphabet below) and every slice/index built from pairs of extreme numbers -- each compiled, cloned, searched against 8 documents and dropped under catch_unwind, a hang watchdog and a fatal-signal handler, with integer overflow checks on; (c) 20 nesting families x the depth ladder, one fresh process each on a thread with an 8 MiB stack (compile, clone, search, Debug-format, drop). non-trivial = the input compiled and was searched / the family member completed Mixed-representation sorts: every array of 21..22 (thorough ..33) numbers over four neighbouring values above 2^53 (integer and float spellings) deviating from the constant array in <= 3 positions, through sort and sort_by. Foreign labels: 20 parsed and 24 hand-built trees wrapped by Expression::new with 16 labels (empty, short, multi-byte characters at every alignment) x 4 documents; failing searches must return an error value that renders.".into();
     rep.bounds = json!({"char_len": k, "token_len": l, "depth_ladder": depths, "families": fam_table});
     rep.assumptions = vec!["every other check also runs each of its cases under catch_unwind with overflow checks; a panic there is reported by that check".into()];
     rep.stats = st;
@@ -517,6 +561,32 @@ pub fn replay(case: &Value) -> Option<(String, bool)> {
             Some(match st.violations.first() {
                 Some(v) => (format!("{}: {}", v.key, v.actual), true),
                 None => ("returns".into(), false),
+            })
+        }
+        "foreign-label" => {
+            use jmespath::ast::Ast;
+            let what = case["tree"].as_str()?;
+            let label = case["label"].as_str()?;
+            let ast = if let Some(rest) = what.strip_prefix("hand-built ") {
+                let off: usize = rest.rsplit(' ').next()?.parse().ok()?;
+                if rest.starts_with("abs()") {
+                    Ast::Function { offset: off, name: "abs".into(), args: vec![] }
+                } else if rest.starts_with("nosuch") {
+                    Ast::Function { offset: off, name: "nosuch".into(), args: vec![Ast::Identity { offset: off }] }
+                } else {
+                    Ast::Slice { offset: off, start: None, stop: None, step: 0 }
+                }
+            } else {
+                jmespath::parse(what).ok()?
+            };
+            let rc = value_to_var(&case["document"]);
+            let r = guarded(|| {
+                let e = jmespath::Expression::new(label, ast.clone(), &jmespath::DEFAULT_RUNTIME);
+                e.search(rc.clone()).map(|v| v.to_string()).map_err(|e| e.to_string())
+            });
+            Some(match r {
+                Ok(x) => (format!("returns {:?}", x.map_err(|e| e.lines().next().unwrap_or("").to_string())), false),
+                Err(m) => (format!("panic: {}", m), true),
             })
         }
         "search" => {
